@@ -88,8 +88,11 @@ func checkC10(c *Ctx) {
 		c10WithSet(c, p, m)
 		c10Creation(c, p, m)
 		childNameDecision(c, p, "R10.9")
+		optionConsumed(c, p, "R10.3")
+		searchLoopExits(c, p, "R10.5", "Entry", "findSublogger")
 		optionsOnOwnLogger(c, p, "R10.10")
 		lookupHitIsPure(c, p, "R10.4")
+		registryOnlyGrows(c, p, "R10.5")
 		c10Navigation(c, p, m)
 		freshChildren(c, p, m, "R10.4", nil)
 		optionsInOrder(c, p, "R10.3")
@@ -1130,6 +1133,33 @@ func childNameDecision(c *Ctx, p *Prog, rule string) {
 				for _, alt := range factsOfEdge(x.Block().Preds[i], x.Block()) {
 					check(e, alt, depth+1)
 				}
+			}
+		case *ssa.Call:
+			// a private helper that picks the name: judged at each of its returns, with the tests that guard the return
+			cal := calleeOf(x)
+			if cal == nil || cal.Pkg != p.Slog || len(cal.Blocks) == 0 || seen[v] || nonEmpty(v, fs) {
+				return
+			}
+			seen[v] = true
+			for _, hb := range cal.Blocks {
+				for _, in := range hb.Instrs {
+					if ta, ok := in.(*ssa.TypeAssert); ok && isStringT(ta.AssertedType) {
+						nAsserted++
+					}
+				}
+			}
+			rets, _ := exitBlocks(cal)
+			for _, rb := range rets {
+				ret := rb.Instrs[len(rb.Instrs)-1].(*ssa.Return)
+				if len(ret.Results) == 0 {
+					continue
+				}
+				var fs2 []condFact
+				for _, g := range guardsOf(rb) {
+					cond, neg := normCond(g.If.Cond)
+					fs2 = append(fs2, condFact{cond, (g.Succ == 0) != neg})
+				}
+				check(ret.Results[0], fs2, depth+1)
 			}
 		}
 	}
